@@ -388,6 +388,7 @@ type File struct {
 	name string // as given by the caller
 	nom  string
 	std  bool
+	app  bool // opened with O_APPEND
 }
 
 func Open(name string) (*File, error) { return OpenFile(name, O_RDONLY, 0) }
@@ -447,7 +448,7 @@ func OpenFile(name string, flag int, perm FileMode) (*File, error) {
 	if err != nil {
 		return nil, err
 	}
-	return &File{f: f, name: name, nom: Nominal(name)}, nil
+	return &File{f: f, name: name, nom: Nominal(name), app: flag&O_APPEND != 0}, nil
 }
 
 func CreateTemp(dir, pattern string) (*File, error) {
@@ -508,7 +509,15 @@ func (f *File) write(kind string, b []byte, do func([]byte) (int, error)) (int, 
 	if f.std {
 		return do(b)
 	}
-	r := sched.Enter(kind, f.nom, strconv.Itoa(len(b)), len(b) > 0)
+	arg := strconv.Itoa(len(b))
+	if f.app && len(b) > 2 && b[0] == '\n' && b[1] == '[' {
+		// an entry header is being written: keep it in the log (ground truth for "this
+		// process addressed that slot")
+		if i := strings.IndexByte(string(b[1:]), '\n'); i > 0 && i < 300 {
+			arg += " " + string(b[1:1+i])
+		}
+	}
+	r := sched.Enter(kind, f.nom, arg, len(b) > 0)
 	if r.Fault != nil {
 		e := r.FaultErr()
 		n := 0
